@@ -157,8 +157,11 @@ def run_pair(case) -> List[Tuple[str, str, str]]:
         graphs = dict(E.DEFAULT_GRAPHS, **GRAPHS2)
         gel = {"nodes": {"ep0": {"id": "ep0"}, "ep1": {"id": "ep1"}, "ep2": {"id": "ep2"}},
                "edges": {"ep0→ep1": {"id": "ep0→ep1", "src": "ep0", "dst": "ep1", "weight": 0.8, "rel": "coact", "attrs": {}},
-                         "ep1→ep2": {"id": "ep1→ep2", "src": "ep1", "dst": "ep2", "weight": 0.6, "rel": "coact", "attrs": {}}},
-               "meta": {"schema": "v1.1", "merges": [], "splits": [], "promotions": [], "concept_nodes_count": 0, "edges_count": 2}}
+                         "ep1→ep2": {"id": "ep1→ep2", "src": "ep1", "dst": "ep2", "weight": 0.6, "rel": "coact", "attrs": {}},
+                         # weak and negative edges: below every floor / threshold a customised graph subtree lists
+                         "ep0→ep2": {"id": "ep0→ep2", "src": "ep0", "dst": "ep2", "weight": 0.1, "rel": "coact", "attrs": {}},
+                         "ep2→ep0": {"id": "ep2→ep0", "src": "ep2", "dst": "ep0", "weight": -0.25, "rel": "coact", "attrs": {}}},
+               "meta": {"schema": "v1.1", "merges": [], "splits": [], "promotions": [], "concept_nodes_count": 0, "edges_count": 4}}
         sess = {}
         perf_custom = "perf" in case["closed"] and case["sub"].get("perf", "omitted") != "omitted"
         for name, cfg in (("A", cfgA), ("B", cfgB)):
@@ -280,6 +283,8 @@ def check(run) -> None:
             custom = sorted(f for f in c["closed"] if c["sub"][f] != "omitted")
             run.fail(clause, {"clause": clause, "customised_closed": custom, "what": what}, cc, msg, replay={"case": cc})
     run.sample({"case": {k: v for k, v in cases[len(cases) // 2].items() if k != "workdir"}}, cap=3)
+    from . import c02_demo
+    c02_demo.check(run)
     run.exhaustive = not q
     run.assumptions += ["two hand-written customised subtrees per feature (validator-accepted, non-default everywhere)",
                         "perf counter is scripted (constant) so that an open scheduler gate never yields on wall-clock time"]
@@ -287,7 +292,11 @@ def check(run) -> None:
 
 def replay(rep) -> int:
     os.makedirs("/verif/.work/C02", exist_ok=True)
-    fails = run_pair(dict(rep["replay"]["case"], workdir="/verif/.work/C02"))
+    if "demo_pair" in rep["replay"]:
+        from . import c02_demo
+        fails = c02_demo.demo_pair_case(dict(rep["replay"]["demo_pair"], workdir="/verif/.work/C02"))
+    else:
+        fails = run_pair(dict(rep["replay"]["case"], workdir="/verif/.work/C02"))
     for f in fails:
         print(": ".join(f))
     if fails:
